@@ -137,6 +137,20 @@ type Mutation { m: Int }
 type Subscription { s: Int t: Int }
 ";
 
+/// Interfaces without any implementing object type: alone (Orphan) and implementing an interface that
+/// objects do implement (Draft implements Node).  Their sets of possible types are empty.
+pub const LONELY: &str = "
+interface Node { id: ID }
+interface Draft implements Node { id: ID rev: Int }
+interface Deep implements Draft & Node { id: ID rev: Int d: Int }
+interface Orphan { x: Int }
+interface Shared implements Node { id: ID }
+type Post implements Shared & Node { id: ID }
+type Other { y: Int }
+union PO = Post | Other
+type Query { n: Node d: Draft dd: Deep o: Orphan s: Shared po: PO }
+";
+
 pub fn pool() -> Vec<(&'static str, String)> {
     vec![
         ("test", format!("{}{}", TEST_SCHEMA, PRELUDE)),
